@@ -2,7 +2,12 @@
 """keep_mutant.py <PROP> <N> <caught_by comma list or '-'> <needs...>: copies a confirmed seeded change into /verif/seeded/<PROP>-<N>/"""
 import sys, os, shutil, json
 prop, n, caught = sys.argv[1], sys.argv[2], sys.argv[3]
-needs = " ".join(sys.argv[4:])
+rest = sys.argv[4:]
+missed = []
+if rest and rest[0].startswith("--missed="):
+    missed = [x for x in rest[0][len("--missed="):].split(",") if x]
+    rest = rest[1:]
+needs = " ".join(rest)
 src = f"/tmp/mutants/{prop}"
 dst = f"/verif/seeded/{prop}-{n}"
 os.makedirs(dst, exist_ok=True)
@@ -13,11 +18,12 @@ if os.path.exists(f"{src}/notes{n}.md"):
 if os.path.exists(f"{src}/verify{n}.log"):
     shutil.copy(f"{src}/verify{n}.log", f"{dst}/verify.log")
 meta = {
-  "breaks_property": prop,
+  "breaks_property": prop.rstrip("b"),
   "needs_to_manifest": needs,
   "confirmed": "tools/verify_mutant.sh in a scratch worktree of /repo HEAD: demo passes without the change; change applies and compiles; baseline suite (cargo test --workspace) passes with the change; demo fails with the change (see verify.log)",
   "checks_run": "tools/run_against.sh patch.diff <checks> (git -C /repo apply; ./check <id> --tier quick; git -C /repo checkout -- .)",
   "caught_by_quick_checks": [] if caught == "-" else caught.split(","),
+  "run_but_not_caught_by": missed,
 }
 json.dump(meta, open(f"{dst}/meta.json", "w"), indent=1)
 print("kept", dst)
